@@ -36,6 +36,7 @@ import (
 	"strconv"
 	"strings"
 	"sync"
+	"sync/atomic"
 	"syscall"
 	"time"
 
@@ -98,10 +99,12 @@ type c08Obs struct {
 	Roll  int      `json:"roll"`  // 0 not probed, 1 no rotation, 2 rotated
 }
 
-const (
-	c08OpTimeout    = 8 * time.Second
-	c08ChildTimeout = 90 * time.Second
-)
+const c08ChildTimeout = 90 * time.Second
+
+// watchdog of one attempt: generous (the machine may be starved), but once several histories of a run
+// have hung the remaining ones are not given the full time again
+var c08OpTimeout = 8 * time.Second
+var c08Hangs int32
 
 // ---------------------------------------------------------------------------------------------
 // validity of a configuration in an environment (mirrors C08_Model.cfg_valid; Coq recomputes it)
@@ -638,6 +641,11 @@ func c08ChildMain(args []string) int {
 		fmt.Println(`{"fatal":"bad input"}`)
 		return 2
 	}
+	if len(args) > 1 {
+		if ms, err := strconv.Atoi(args[1]); err == nil && ms > 0 {
+			c08OpTimeout = time.Duration(ms) * time.Millisecond
+		}
+	}
 	ch := &c08Child{dir: args[0], logbuf: &c08LogBuf{}, names: map[string]int{}}
 	casket.Quiet = true
 	log.SetOutput(ch.logbuf)
@@ -740,7 +748,11 @@ func c08RunChild(in *c08In) (obs []c08Obs, crashed string) {
 	data, _ := json.Marshal(in)
 	ctx, cancel := context.WithTimeout(context.Background(), c08ChildTimeout)
 	defer cancel()
-	cmd := exec.CommandContext(ctx, os.Args[0], "c08child", dir)
+	opMs := 8000
+	if atomic.LoadInt32(&c08Hangs) >= 6 {
+		opMs = 3000
+	}
+	cmd := exec.CommandContext(ctx, os.Args[0], "c08child", dir, strconv.Itoa(opMs))
 	cmd.Env = append(os.Environ(), "GOMAXPROCS=2")
 	cmd.Stdin = bytes.NewReader(data)
 	var errb bytes.Buffer
@@ -755,6 +767,9 @@ func c08RunChild(in *c08In) (obs []c08Obs, crashed string) {
 			break
 		}
 		obs = append(obs, o)
+	}
+	if n := len(obs); n > 0 && obs[n-1].Res == 3 {
+		atomic.AddInt32(&c08Hangs, 1)
 	}
 	if ctx.Err() != nil {
 		crashed = "killed by the watchdog"
